@@ -123,7 +123,8 @@ def gen_case(rnd, spec):
                 gen["services"].append(s)
             else:
                 p["executed"] = True
-                p["program"] = worker_program(rnd, forever=False) + [["return", "str"]]
+                # the executed payload ends with a result or with an error of its own (for the caller, not for the runtime)
+                p["program"] = worker_program(rnd, forever=False) + [rnd.choice([["return", "str"], ["return", "str"], ["raise", "RuntimeError"], ["raise", "NotImplementedError"], ["raise", "LookupError"]])]
                 gen["payloads"].append(p)
                 if how == "exec_outside":
                     script.append(["thread", [["execute", p["id"]]]])
